@@ -307,7 +307,12 @@ func gen(t *rapid.T) Case {
 		if ri >= 9 {
 			ri++
 		}
-		switch rapid.IntRange(0, 3).Draw(t, "nm") {
+		switch rapid.IntRange(0, 4).Draw(t, "nm") {
+		case 4:
+			// a complete, valid KeyID with something behind it: not a JSON text any more
+			c.NearMiss = "trailer"
+			full := vh.JoinMembers(ms, "")
+			c.KeyIDText = full + rapid.SampledFrom([]string{"}", " }", "{}", full, "\n" + full, ",", " x", "\x00", "null", "]", "// comment", " 1"}).Draw(t, "trailer")
 		case 0:
 			c.NearMiss = "delete:" + ms[ri].Name
 			ms = append(ms[:ri:ri], ms[ri+1:]...)
@@ -333,7 +338,7 @@ func gen(t *rapid.T) Case {
 	return c
 }
 
-const rule = "certificates with KeyIDs built from attribute sets (16 flag combinations x touch policy {-1..4,7} x version, decorated with random transaction ids, principals, usage (one value in 24 is 1..70 KB long, one principal list in 24 has 8..1000 entries: KeyIDs beyond 4 KiB and 64 KiB), extra members, member order, JSON whitespace inside and around the object), near-miss KeyIDs (one required member deleted / upper-cased / retyped, truncated text), free text and nil certificates; critical option nil-map / absent / empty / set, other critical options and look-alike names, extensions carrying the option name; certificate kind unset / user / host / undefined, serial and validity window at their extremes (no input of the type). Oracle: independently written decision table for GetType, Label = documented type name + 'SSH-' + transaction id (error for unknown), GetPrincipals suffix rules. Non-trivial: decodable KeyID with at least one flag set or the critical option present; distinct by Case hash."
+const rule = "certificates with KeyIDs built from attribute sets (16 flag combinations x touch policy {-1..4,7} x version, decorated with random transaction ids, principals, usage (one value in 24 is 1..70 KB long, one principal list in 24 has 8..1000 entries: KeyIDs beyond 4 KiB and 64 KiB), extra members, member order, JSON whitespace inside and around the object), near-miss KeyIDs (one required member deleted / upper-cased / retyped, truncated text, a complete KeyID followed by a trailer such as a brace or a second KeyID), free text and nil certificates; critical option nil-map / absent / empty / set, other critical options and look-alike names, extensions carrying the option name; certificate kind unset / user / host / undefined, serial and validity window at their extremes (no input of the type). Oracle: independently written decision table for GetType, Label = documented type name + 'SSH-' + transaction id (error for unknown), GetPrincipals suffix rules. Non-trivial: decodable KeyID with at least one flag set or the critical option present; distinct by Case hash."
 
 func TestC19Random(t *testing.T) {
 	vh.Run(t, vh.Spec[Case]{Property: "C19", Name: "TestC19Random", Rule: rule, Gen: gen, Exec: exec})
